@@ -17,7 +17,7 @@ CHECKS = {
          "Encode: a systematic grid over all 32 flag combinations x 256 MSIN bytes x 2 storage modes plus free random messages, crate bytes compared byte for byte with the reference encoder. Decode: hostile byte strings (canonical, wire-level dialect, mutated, arbitrary, > 64 KiB) judged in both storage modes against the reference decoder's verdict (fields + consumed length / incomplete / reject). Thorough adds a coverage-guided libFuzzer campaign with the same oracle in the target.",
          "The reference codec (harness/src/refcodec.rs) is the trusted description of the AUTOSAR layout and of the accepted dialect; in the overlap 'too short and length field inconsistent' both verdicts are accepted.", "DESIGN.md 3.2, 4/C02"),
  "C03": ("exploration", "property-based testing + coverage-guided fuzzing (libFuzzer, ASan) with post-condition oracle under catch_unwind and overflow checks",
-         "Every slice-level entry point is called on hostile byte strings (incl. > 64 KiB, truncated, bit-flipped, length-corrupted) in all storage/filter modes with a Trace-level logger installed; panics and arithmetic overflow are observed through catch_unwind with overflow-checks on, returned remainders must lie inside the input, returned messages are re-serialised, measured and validated. Thorough adds libFuzzer campaigns (AddressSanitizer) incl. a -max_len=70000 pass.",
+         "Every slice-level entry point is called on hostile byte strings (incl. > 64 KiB and > 1 MiB in one slice, truncated, bit-flipped, length-corrupted) in all storage/filter modes (7 fixed filter configurations and generated ones through both conversions) with a Trace-level logger installed and dlt-core's debug feature compiled in; panics and arithmetic overflow are observed through catch_unwind with overflow-checks on, returned remainders must lie inside the input, returned messages are re-serialised, measured and validated. Thorough adds libFuzzer campaigns (AddressSanitizer) incl. a -max_len=70000 pass.",
          "Trusts catch_unwind + overflow-checks + (thorough) ASan to make memory/arithmetic errors visible; out-of-bounds reads that neither panic nor trip ASan would be missed.", "DESIGN.md 4/C03"),
  "C04": ("exploration", "property-based testing + libFuzzer: consumption oracle computed from the raw bytes, filter metamorphic relation",
          "On hostile inputs biased to parseable-but-inconsistent messages, every Ok result of dlt_message under 9 filter configurations and of dlt_consume_msg is compared with the consumption computed from the raw bytes only (first pattern offset + 16 + big-endian LEN); all filters must leave the same remainder; iteration must terminate within len/4+2 steps.",
@@ -26,13 +26,13 @@ CHECKS = {
          "For generated well-formed messages every proper prefix (all cut positions for messages <= 4 KiB; field-map-guided cuts beyond) must be reported IncompleteParse with a hint between 1 and the number of missing bytes, by the parser and by the skipper. 150k messages quick, 2M messages thorough (each with all its prefixes).",
          "Trusts the generator of well-formed messages; cut positions of messages > 4 KiB are sampled along the field map, not exhaustive.", "DESIGN.md 4/C05"),
  "C06": ("exploration", "property-based testing against a naive search reference + junk-prefix metamorphic relation",
-         "The pattern search is compared with a naive first-occurrence search on arbitrary / low-entropy / 70 KB inputs with planted patterns; junk ++ message ++ suffix must parse like message ++ suffix, without a filter and under 7 filter configurations (kept and filtered-out results alike); streams with junk between messages must be recovered completely and in order (with a filter: one result per message).",
+         "The pattern search is compared with a naive first-occurrence search on arbitrary / low-entropy / 70 KB / multi-megabyte inputs with planted patterns, and bounded-exhaustively with the pattern placed around every power-of-two block boundary from 16 B to 2 MiB; junk ++ message ++ suffix must parse like message ++ suffix, without a filter and under 7 filter configurations (kept and filtered-out results alike); streams with junk between messages must be recovered completely and in order (with a filter: one result per message).",
          "Junk is pattern-free by construction (scrubbed); relies on 'DLT\\x01' having no border.", "DESIGN.md 4/C06"),
  "C07": ("exploration", "property-based testing over generated read schedules and fault placements against a slice-cutting reference",
-         "The harness owns the byte source: generated sequences of short reads and ErrorKind::Interrupted plus systematic constant-chunk schedules (1..64, with/without interruption before every read) over well-formed, truncated, hostile and hostile-length streams; the outcome sequence of read_message and next_message_slice must equal cutting the stream at the declared lengths and parsing each piece; no panic, bounded number of calls.",
+         "The harness owns the byte source: generated sequences of short reads, single and long runs (2..5000) of ErrorKind::Interrupted, plus systematic constant-chunk schedules (1..64, with/without interruption before every read) over well-formed, truncated, hostile, hostile-length and long streams (hundreds to thousands of messages, large messages), read through ::new and through with_capacity readers down to buffers exactly as long as the longest declared message; the outcome sequence of read_message and next_message_slice must equal cutting the stream at the declared lengths and parsing each piece; no panic, bounded number of calls.",
          "Schedules are sampled (plus the systematic family), not exhausted; for a declared length < 4 only no-panic / termination / prefix delivery is asserted, as the statement fixes nothing more.", "DESIGN.md 4/C07"),
  "C08": ("exploration", "differential testing async vs blocking reader over generated poll schedules on a hand-rolled executor",
-         "Generated sequences of Poll::Pending / Poll::Ready(k) (source wakes before Pending) plus systematic schedules; the async reader is polled with a poll budget and its outcome sequence (messages by bits, error class, end) must equal the blocking reader's on an always-ready source.",
+         "Generated sequences of Poll::Pending (single and long runs) / Poll::Ready(k) (source wakes before Pending) plus systematic schedules, over the streams and reader constructions of C07 (incl. tight with_capacity readers and long streams); the async reader is polled with a poll budget and its outcome sequence (messages by bits, error class, end) must equal the blocking reader's on an always-ready source.",
          "The blocking reader is the reference (C07 decides its own conformance); real reactor timing is out of scope; a poll budget, not wall-clock, decides 'never completes'.", "DESIGN.md 4/C08"),
  "C09": ("exploration", "property-based testing against an independent decision procedure written from the statement",
          "Filter configurations (every criterion absent/present, all level numbers, empty/duplicate/hitting/missing id lists, near-miss ids such as ids longer than the 4-byte wire field, counts around the set sizes, both From conversions) x well-formed messages x suffix; the drop/keep decision, the FilteredOut payload length, the remainder and the equality of kept messages with the unfiltered parse are checked, also through read_message.",
@@ -47,7 +47,7 @@ CHECKS = {
          "Every truncation offset of both sample files and of generated document sets; every document that is a sequence of at most 4 (thorough: 5) of 30 markup tokens (bounded-exhaustive); sampled subtree / tag / attribute deletions, byte corruptions, duplicated slices, combinations of up to three damages, 'element-level damage, then every truncation offset behind it', damaged members of multi-file sets and special path sets; each load runs in an evaluator child and must answer model/refused within 10 s of CPU; panic, child death or budget exhaustion is a violation. Thorough adds a libFuzzer campaign on document bytes whose hang candidates are re-judged by the same evaluator.",
          "Non-termination is decided by a CPU-time budget (10^4 x the normal cost), not proved; damage other than truncation is sampled.", "DESIGN.md 2.5, 4/C12"),
  "C13": ("exploration", "property-based testing against a reference packing, with exhaustive truncation per case (+ libFuzzer in the thorough tier)",
-         "Lists of supported signal types with values are packed by a reference encoder in the stated byte order; exact and exact+trailing payloads must decode to one bit-equal argument per type carrying the given type info, every proper truncation and a non-UTF-8 string must be refused, fixed-point kinds must not panic.",
+         "Lists of supported signal types with values are packed by a reference encoder in the stated byte order; exact and exact+trailing payloads must decode to one bit-equal argument per type carrying the given type info, every proper truncation and a string made invalid UTF-8 at every byte position in turn must be refused, lists of up to 300 signals, fixed-point kinds must not panic.",
          "Strings are compared modulo one final NUL (left open by the statement); fixed-point decoding is not asserted.", "DESIGN.md 4/C13"),
  "C14": ("exploration", "bounded-exhaustive enumeration of the finite code spaces against the bit layout (thorough: all 2^32 type-info words)",
          "All 256 HTYP bytes and all 256 MSIN bytes are decoded, compared with the layout tables and re-encoded; type-info words: quick enumerates bits 0-17 completely x 1024 patterns of the unused upper bits, thorough enumerates all 2^32 words (exhaustive: true); acceptance must equal the reference predicate, re-encoding must decode to the same description, differ only in unused bits and be byte-reversal symmetric.",
